@@ -11,6 +11,7 @@ MODULE = "TraceAutomata"
 
 
 def generate(rng, tier, shard, nshards):
+    event = aops.variant_event(rng, skip=())
     n = 16 if tier == "quick" else 160
     L = 2
     sig = ["a", "b"]
@@ -41,17 +42,17 @@ def generate(rng, tier, shard, nshards):
         for how in ("cfg@fst", "fst.T@cfg"):
             Tx = T if how == "cfg@fst" else {"n": T["n"], "I": T["I"], "F": T["F"],
                                              "arcs": [[p, b, a, q, w] for p, a, b, q, w in T["arcs"]]}
-            yield aops.event("gcompose", dict(base, T=T, how=how), site=how, feat=feat, timeout=60)
+            yield event("gcompose", dict(base, T=T, how=how), site=how, feat=feat, timeout=60)
         for y in fam.strings(sig, 2):
             if rng.random() < 0.5:
-                yield aops.event("gcall", dict(base, T=T, y=list(y), how="call"), site="(cfg@fst)(ys)", feat=feat, timeout=60)
+                yield event("gcall", dict(base, T=T, y=list(y), how="call"), site="(cfg@fst)(ys)", feat=feat, timeout=60)
         M = aops.rand_wfsa(rng, srn, nS=rng.choice([2, 3]), narcs=4, eps_acyclic=True, acyclic=exact)
-        yield aops.event("gcompose", dict(base, M=M, how="cfg@wfsa"), site="cfg@acceptor", feat="acceptor/" + gfeat, timeout=60)
+        yield event("gcompose", dict(base, M=M, how="cfg@wfsa"), site="cfg@acceptor", feat="acceptor/" + gfeat, timeout=60)
         for xs in fam.strings(sig, 2):
-            yield aops.event("gcall", dict(base, xs=list(xs), how="treesum@string"), site="(cfg@xs).treesum()", feat="string/" + gfeat)
+            yield event("gcall", dict(base, xs=list(xs), how="treesum@string"), site="(cfg@xs).treesum()", feat="string/" + gfeat)
         xs = [rng.choice(sig) for _ in range(rng.randint(0, 2))]
-        yield aops.event("gcompose", dict(base, xs=xs, how="cfg@string"), site="cfg@string", feat="string/" + gfeat)
-        yield aops.event("truncate", {"sr": srn, "G": G, "n": rng.choice([0, 1, 2]), "L": 3, "names": names},
+        yield event("gcompose", dict(base, xs=xs, how="cfg@string"), site="cfg@string", feat="string/" + gfeat)
+        yield event("truncate", {"sr": srn, "G": G, "n": rng.choice([0, 1, 2]), "L": 3, "names": names},
                          site="truncate_length", feat="truncate/" + gfeat)
 
 
